@@ -443,8 +443,9 @@ def d6_archive_copy(ctx):
                       f'existing file is handed back as the archive of the current content')
     adds = [n for n in own_nodes(f.node) if isinstance(n, ast.Call) and
             isinstance(n.func, ast.Attribute) and n.func.attr == 'add']
-    ok = False
+    ok = bool(adds)
     for a in adds:
+        ok_one = False
         src = a.args[0] if a.args else get_arg(a, None, 'name')
         arc = get_arg(a, 1, 'arcname')
         pv = ctx.E.pathval(src, f) if src is not None else None
@@ -452,7 +453,8 @@ def d6_archive_copy(ctx):
         if pv is not None and pv.name is None and pv.base[0] == 'dir' and arc is not None and \
                 isinstance(arc, ast.Attribute) and arc.attr == 'name' and norm(arc.value) == norm(src) and \
                 (rec is None or (isinstance(rec, ast.Constant) and rec.value is True)):
-            ok = True
+            ok_one = True
+        ok = ok and ok_one      # EVERY add is the whole directory (a second route that adds selected names leaves files out)
     ctx.decide(ok, 'R-FLOW', 'D6', f, adds[0] if adds else None, 'whole-dir-under-own-name',
                'archive adds the whole array directory under its own name',
                detail='tf.add does not add self.path recursively with arcname=self.path.name (sub-directories such as '
